@@ -345,6 +345,58 @@ fn run_fault_case(tokens: &[usize], op: Op, script: Script) -> (Result<(), Strin
     (r, script)
 }
 
+fn cells_of_ansi(bytes: &[u8]) -> Vec<(Cap, Cap, u8)> {
+    let mut m = RunModel::default();
+    expected_cells(&mut m, bytes)
+}
+
+fn lock_part() -> (u64, Vec<(String, String)>) {
+    use vchecks::stdio_sys::capture_stdio;
+    let inputs: [&[u8]; 3] = [b"a\x1b[31mred\x1b[44m on blue\x1b[0m b\n", "p\x1b[38;5;12m€x\n".as_bytes(), b"\x1b[1;32mg\x1b]0;t\x07h\n"];
+    let mut bad = vec![];
+    let mut n = 0u64;
+    for input in inputs {
+        let expected = cells_of_ansi(input);
+        for cut in 0..=input.len() {
+            let (a, b) = input.split_at(cut);
+            let r = capture_stdio(|| {
+                let mut s = WinconStream::new(std::io::stdout());
+                s.write_all(a).unwrap();
+                let mut l = s.lock();
+                l.write_all(b).unwrap();
+                drop(l);
+                let mut s = WinconStream::new(std::io::stderr());
+                s.write_all(a).unwrap();
+                let mut l = s.lock();
+                l.write_all(b).unwrap();
+                drop(l);
+            });
+            n += 2;
+            match r {
+                Ok((_, cap)) => {
+                    for (name, got) in [("stdout", &cap.out), ("stderr", &cap.err)] {
+                        let cells = cells_of_ansi(got);
+                        if cells != expected {
+                            bad.push((
+                                format!("{name} cut={cut} input={}", hex(input)),
+                                format!(
+                                    "write_all({}); lock(); write_all({}) on {name}: the console calls (read back from their ANSI rendering) were {:?}, expected {:?}",
+                                    show(a),
+                                    show(b),
+                                    summarize(&cells),
+                                    summarize(&expected)
+                                ),
+                            ));
+                        }
+                    }
+                }
+                Err(m) => bad.push((format!("cut={cut} input={}", hex(input)), m)),
+            }
+        }
+    }
+    (n, bad)
+}
+
 fn clause_of(m: &str) -> String {
     for (pat, c) in [
         ("panic:", "panic"),
@@ -369,6 +421,22 @@ fn clause_of(m: &str) -> String {
 fn main_check(ctx: &Ctx) -> Outcome {
     let mut out = Outcome::default();
     let quick = ctx.quick();
+    // lock(): the colour / parser state must survive `WinconStream<Stdout|Stderr>::lock()`.
+    // Off Windows anstyle_wincon renders console calls on the std streams as ANSI, which is read back.
+    {
+        let (n, bad) = lock_part();
+        for (case, message) in bad.into_iter().take(20) {
+            out.findings.push(Finding {
+                system: "anstream::WinconStream<Stdout|Stderr>: write_all; lock(); write_all".into(),
+                clause: "state-lost-at-lock".into(),
+                case: vec![case],
+                message,
+                replay: json!({"kind":"lock"}),
+            });
+        }
+        out.push_part(json!({"system":"write_all; lock(); write_all over the real stdout/stderr redirected to files, every cut position","cases":n}));
+    }
+
     // E1
     let sys = ConsoleSys { inner: sgr_bfs_system() };
     let mut lim = Limits::depth(if quick { 3 } else { 4 });
@@ -452,6 +520,50 @@ fn main_check(ctx: &Ctx) -> Outcome {
         b.sort_by_key(|f| (f.case[0].len(), f.key()));
         out.findings.extend(b);
         out.push_part(json!({"system":"console value sweeps (all 256 indices / component values / plain codes)","sequences":sweep.len()}));
+    }
+
+    // sequences of two attribute groups from the default state (e.g. two truecolor groups in one sequence)
+    {
+        let groups = vchecks::wincon_sys::sgr_groups();
+        let pairs: Vec<(usize, usize)> = (0..groups.len()).flat_map(|a| (0..groups.len()).map(move |b| (a, b))).collect();
+        let bad = std::sync::Mutex::new(Vec::<Finding>::new());
+        pairs.par_iter().for_each(|&(a, b)| {
+            let chunk = format!("x\x1b[{};{}my", groups[a], groups[b]).into_bytes();
+            let mut probe = RunModel::default();
+            probe.feed(&chunk);
+            if probe.ill_formed {
+                return;
+            }
+            let r = guard(|| {
+                let sh = Rc::new(RefCell::new(Shared::default()));
+                let mut stream = WinconStream::new(Console(sh.clone()));
+                stream.write_all(&chunk).map_err(|e| format!("write_all failed on a console that accepts everything: {e}"))?;
+                let mut model = RunModel::default();
+                let exp = expected_cells(&mut model, &chunk);
+                let got = sh.borrow().cells.clone();
+                if got != exp {
+                    return Err(format!("console colours differ: write_all({}) -> console got {:?}, expected {:?}", show(&chunk), summarize(&got), summarize(&exp)));
+                }
+                Ok(())
+            })
+            .and_then(|r| r);
+            if let Err(m) = r {
+                let mut v = bad.lock().unwrap();
+                if v.len() < 60 {
+                    v.push(Finding {
+                        system: "anstream::WinconStream/two-group-sequences".into(),
+                        clause: clause_of(&m),
+                        case: vec![show(&chunk)],
+                        message: m,
+                        replay: json!({"kind":"sweep","chunk":hex(&chunk)}),
+                    });
+                }
+            }
+        });
+        let mut b = bad.into_inner().unwrap();
+        b.sort_by_key(|f| (f.case[0].len(), f.key()));
+        out.findings.extend(b);
+        out.push_part(json!({"system":"console: every sequence of two attribute groups from the default state","sequences":pairs.len()}));
     }
 
     // E2
@@ -543,6 +655,10 @@ fn replay(v: &serde_json::Value) -> Result<(), String> {
             let forced: Vec<usize> = v["script"].as_array().unwrap().iter().map(|x| x.as_u64().unwrap() as usize).collect();
             run_fault_case(&toks, op, Script::new(forced)).0
         }
+        "lock" => match lock_part().1.first() {
+            Some((c, m)) => Err(format!("{c}: {m}")),
+            None => Ok(()),
+        },
         "sweep" => {
             let chunk = unhex(v["chunk"].as_str().unwrap_or(""));
             let sh = Rc::new(RefCell::new(Shared::default()));
